@@ -252,6 +252,13 @@ pub fn run(seed: u64, n: u64, thorough: bool, corpus: &[String], dir: &str) {
             }
         }
     }
+    // the 8-bit / 32-bit width boundaries of every variable-width and compound encoding, one octet apart
+    for v in boundary_values() {
+        if let Ok(Ok(bytes)) = catch_unwind(AssertUnwindSafe(|| serde_amqp::to_vec(&v))) {
+            out.count("boundary_cases");
+            out.case(&format!("spec {}", hex(&bytes)), &format!("OK {}", text(&v)));
+        }
+    }
     for _ in 0..n {
         let v = gen_value(&mut r, 3, 0);
         if has_unsupported_array(&v) || exceeds_count_cap(&v) || !maps_have_distinct_keys(&v) {
@@ -297,8 +304,87 @@ pub fn run(seed: u64, n: u64, thorough: bool, corpus: &[String], dir: &str) {
                 Err(_) => out.violation("c05-panic", &format!("c05-panic: decoding {} panicked", hex(&bytes)), &line),
             }
             out.case(&line, &t);
+            // (c) the same encodings read lazily (LazyValue takes the octets of one value without decoding them): a list
+            // of the value and a marker read as (LazyValue, u8) must hand back exactly the value's octets
+            let mut lst = vec![0xd0u8];
+            lst.extend(be((bytes.len() + 2 + 4) as u64, 4));
+            lst.extend(be(2, 4));
+            lst.extend_from_slice(&bytes);
+            lst.extend_from_slice(&[0x50, 0x2a]);
+            out.count("lazy_cases");
+            let lz = catch_unwind(AssertUnwindSafe(|| serde_amqp::from_slice::<(serde_amqp::lazy::LazyValue, u8)>(&lst)));
+            // ... through either reader
+            let lzio = catch_unwind(AssertUnwindSafe(|| serde_amqp::from_reader::<(serde_amqp::lazy::LazyValue, u8)>(&lst[..])));
+            match lzio {
+                Ok(Ok((l, 0x2a))) if l.as_slice() == &bytes[..] => {}
+                Ok(other) => out.violation(
+                    "c05-lazy-variant-io",
+                    &format!(
+                        "c05-lazy-variant-io: {} is a valid encoding of {}; read lazily through from_reader it gives {}",
+                        hex(&bytes),
+                        text(&v),
+                        match &other {
+                            Ok((l, m)) => format!("octets {} and marker {:#x}", hex(l.as_slice()), m),
+                            Err(e) => format!("{:?}", e),
+                        }
+                    ),
+                    &line,
+                ),
+                Err(_) => out.violation("c05-panic", &format!("c05-panic: lazy read of {} through from_reader panicked", hex(&bytes)), &line),
+            }
+            match lz {
+                Ok(Ok((l, 0x2a))) if l.as_slice() == &bytes[..] => {}
+                Ok(other) => out.violation(
+                    "c05-lazy-variant",
+                    &format!(
+                        "c05-lazy-variant: {} is a valid encoding of {}; read lazily from a list followed by a ubyte it gives {}",
+                        hex(&bytes),
+                        text(&v),
+                        match &other {
+                            Ok((l, m)) => format!("octets {} and marker {:#x}", hex(l.as_slice()), m),
+                            Err(e) => format!("{:?}", e),
+                        }
+                    ),
+                    &line,
+                ),
+                Err(_) => out.violation("c05-panic", &format!("c05-panic: lazy read of {} panicked", hex(&bytes)), &line),
+            }
         }
     }
     let _ = Described::<Value> { descriptor: Descriptor::Code(0), value: Value::Null };
     out.finish(dir);
+}
+
+/// values whose encodings lie on both sides of the str8/str32, sym8/sym32, vbin8/vbin32, list8/list32, map8/map32 and
+/// array8/array32 boundaries (size 255 / 256, count 255 / 256)
+fn boundary_values() -> Vec<Value> {
+    use serde_amqp::primitives::{Array, OrderedMap, Symbol};
+    let mut v = Vec::new();
+    for l in 240usize..=262 {
+        let bin: Vec<u8> = (0..l).map(|i| (i * 7 + 3) as u8).collect();
+        let s: String = (0..l).map(|i| (b'a' + (i % 26) as u8) as char).collect();
+        v.push(Value::Binary(bin.clone().into()));
+        v.push(Value::String(s.clone()));
+        v.push(Value::Symbol(Symbol(s.clone())));
+        v.push(Value::List(vec![Value::Binary(bin.clone().into())]));
+        v.push(Value::List(vec![Value::Ubyte(1), Value::String(s.clone())]));
+        let mut m = OrderedMap::new();
+        m.insert(Value::Symbol(Symbol("k".into())), Value::Binary(bin.clone().into()));
+        v.push(Value::Map(m));
+        let mut m2 = OrderedMap::new();
+        m2.insert(Value::Ubyte(1), Value::String(s.clone()));
+        m2.insert(Value::Ubyte(2), Value::Null);
+        v.push(Value::Map(m2));
+        v.push(Value::Array(Array((0..l).map(|i| Value::Ubyte(i as u8)).collect())));
+        v.push(Value::Array(Array(vec![Value::Binary(bin.into())])));
+        v.push(Value::List((0..l).map(|_| Value::Null).collect()));
+    }
+    for l in [60usize, 61, 62, 63, 64, 65, 126, 127, 128, 129] {
+        // two- and four-octet elements: the size boundary is crossed at other counts
+        v.push(Value::Array(Array((0..l).map(|i| Value::Uint(1000 + i as u32)).collect())));
+        v.push(Value::Array(Array((0..l).map(|i| Value::Ushort(300 + i as u16)).collect())));
+        v.push(Value::Array(Array((0..l / 2).map(|i| Value::Ulong(i as u64)).collect())));
+        v.push(Value::Array(Array((0..l / 2).map(|i| Value::Long(i as i64 - 3)).collect())));
+    }
+    v
 }
